@@ -1,1 +1,18 @@
 //! Shared harness code: schemas, worlds, glue to the reference model.
+pub mod gen;
+pub mod glue;
+pub mod s1;
+
+use agv_engine::sched::drive;
+use async_graphql::{Request, Response, Variables};
+use serde_json::{Map, Value as J};
+
+/// Execute one request on S1 with a world; all resolvers are ready, so the
+/// future must complete without parking (else `Err`).
+pub fn run_s1(schema: &s1::S1, query: &str, op: Option<&str>, vars: &Map<String, J>, wd: s1::W) -> Result<Response, String> {
+    let mut req = Request::new(query).variables(Variables::from_json(J::Object(vars.clone()))).data(wd);
+    if let Some(o) = op {
+        req = req.operation_name(o);
+    }
+    drive(schema.execute(req)).ok_or_else(|| "execute future parked without a waker".to_string())
+}
